@@ -179,8 +179,8 @@ def judge(rep, behaviours, trace):
 
 
 FAMILIES_QUICK = [('MC_MetadataFSM.cfg', 'Sim_MetadataFSM.cfg', 350), ('MC_MetadataFSM_groups.cfg', 'Sim_MetadataFSM_groups.cfg', 350)]
-FAMILIES_THOROUGH = [('MC_MetadataFSM_thorough.cfg', 'Sim_MetadataFSM.cfg', 2500),
-                     ('MC_MetadataFSM_groups_thorough.cfg', 'Sim_MetadataFSM_groups.cfg', 2500)]
+FAMILIES_THOROUGH = [('MC_MetadataFSM_thorough.cfg', 'Sim_MetadataFSM.cfg', 1200),
+                     ('MC_MetadataFSM_groups_thorough.cfg', 'Sim_MetadataFSM_groups.cfg', 1200)]
 
 
 def run(rep, tier, seed, replay):
